@@ -893,6 +893,7 @@ class MPosixpath:
 
 
 _INSTALLED = False
+TO_THREAD_HOOK = [None]  # one-shot intruder run at the next to_thread suspension (web layer)
 
 
 def install(web=True):
@@ -941,6 +942,11 @@ def install(web=True):
         Wd.posixpath = MPosixpath
 
         async def to_thread(func, *args, **kwargs):
+            # asyncio.to_thread is a real suspension point: another request may run before the function does
+            hook = TO_THREAD_HOOK[0]
+            if hook is not None:
+                TO_THREAD_HOOK[0] = None
+                hook()
             return func(*args, **kwargs)
 
         Wb.to_thread = to_thread
